@@ -48,7 +48,52 @@ func fix4(o *Out, in []byte, cls string) {
 	o.Emit(rec, cls, in, p != nil)
 }
 
+// overloadWires: packets that carry option 52 (the header's sname / file fields "hold options", RFC 2132 9.3 - the library
+// does not interpret it: the fields stay names, the option stays an option) with fields shaped like option lists: well
+// formed with End, without End, a second option that runs past the field, a plain name, empty; and the same fields
+// without option 52
+func overloadWires(rng *rand.Rand) [][]byte {
+	var out [][]byte
+	shapes := func(room int) [][]byte {
+		host := []byte{12, 4, 'h', 'o', 's', 't'}
+		return [][]byte{
+			append(append([]byte{}, host...), 255),
+			append(append(append([]byte{}, host...), 15, 3, 'l', 'a', 'n'), 255),
+			append([]byte{}, host...),
+			append(append([]byte{}, host...), 15, byte(room)),
+			[]byte("pxelinux.0"),
+			{255},
+			{},
+			append(append([]byte{0, 0}, host...), 255),
+		}
+	}
+	for _, ov := range []int{-1, 1, 2, 3, 0, 4} {
+		for si, sn := range shapes(64) {
+			for fi, fn := range shapes(128) {
+				if (si+fi+ov+8)%3 != 0 && si != fi {
+					continue // a third of the cross product, the diagonal in full
+				}
+				w := append([]byte(nil), stdHeader4()...)
+				copy(w[44:108], sn)
+				copy(w[108:236], fn)
+				w = append(w, 53, 1, 2, 12, 2, 'o', 'k')
+				if ov >= 0 {
+					w = append(w, 52, 1, byte(ov))
+				}
+				if rng.Intn(2) == 0 {
+					w = append(w, 66, 4, 't', 'f', 't', 'p') // a TFTP server name option next to the fields
+				}
+				out = append(out, append(w, 255))
+			}
+		}
+	}
+	return out
+}
+
 func genC06v4(o *Out, rng *rand.Rand, tier string) {
+	for _, w := range overloadWires(rng) {
+		fix4(o, w, "option-overload-fields")
+	}
 	maxLen, n := 5, 1200
 	if tier == "thorough" {
 		maxLen, n = 6, 20000
